@@ -311,6 +311,8 @@ def run(chk, repo):
         r = max((n for n in own_nodes(fn) if isinstance(n, ast.Return)), key=lambda n: n.lineno)
         e = r.value
         if isinstance(e, ast.Call) and base_name(canon(mod, e.func)) == "Stream":
+            if not (e.args and isinstance(e.args[0], (ast.GeneratorExp, ast.ListComp))):
+                raise AnalysisError("%s: the interpolated samples are not a generator expression (%s)" % (q, short(e)))
             e = e.args[0].elt
         ok = isinstance(e, ast.BinOp) and isinstance(e.op, ast.Add)
         detail = ""
